@@ -134,7 +134,10 @@ LEVEL_TEXT = ("Machine-checked theorems (Coq 8.16, closed under the global conte
               "is_set below || in the parent's global record`, and the global record is handed on (C10_propagate_is_set); "
               "a setter routed through global_setting holds at EVERY level of any chain below the command it was called "
               "on, one routed through setting changes nothing below (C10_global_setter_reaches_every_level, "
-              "C10_local_setter_stays); the settings block of _build_self (multicall excluded) and the finishing of the "
+              "C10_local_setter_stays), and in the real build order -- build_self, then build_subcommand to any depth, for every unbuilt "
+              "tree without short-flag subcommands -- every global setting except PropagateVersion (which the generated help "
+              "subcommand clears) is set at every level (C10_global_setting_set_at_every_built_level, "
+              "C10_global_setter_set_at_every_built_level); the settings block of _build_self (multicall excluded) and the finishing of the "
               "generated help subcommand are the table's functions (C10_build_self_settings_table, "
               "C10_help_subcommand_table).  The model is tied to "
               "clap_builder by running extracted model and real crate on the same generated cases on every check; an "
